@@ -44,7 +44,20 @@ type Op struct {
 	Req  *Req   `json:"req,omitempty"`
 	Edit *Edit  `json:"edit,omitempty"`
 	Aim  string `json:"aim,omitempty"` // req: generated around the "current" or the "previous" configuration (label only)
+
+	// scale (scale_test.go)
+	Bulk     *Bulk     `json:"bulk,omitempty"`      // that many requests, every one judged
+	EditBulk *EditBulk `json:"edit_bulk,omitempty"` // that many operator edits
 }
+
+// EditBulk: N operator Listener.Edit packages, the forms of Cycle in turn (each is the
+// dialog's whole form, so the configuration in force afterwards is the last one sent).
+type EditBulk struct {
+	N     int    `json:"n"`
+	Cycle []Edit `json:"cycle"`
+}
+
+func (b EditBulk) last() Edit { return b.Cycle[(b.N-1)%len(b.Cycle)] }
 
 type CaseH struct {
 	// Start: "operator-add" = the operator's Listener.Add package through DispatchEvent
@@ -223,9 +236,55 @@ func genH(t *rapid.T) CaseH {
 		c.Cfg.RespHeaders = nil
 		c.Cfg.KillDate, c.Cfg.WorkingHours, c.Cfg.Methode = 0, "", "" // not part of what dispatch.go's Add branch takes over
 	}
+	// about one history in 20: one count of the subject at a threshold-adjacent large value (scale_test.go)
+	scale, bulkSlot, bulkSlot2, slot := "", -1, -1, 0
+	var bulkRest *Bulk
+	if isScaleCase(t, 20) {
+		scale = rapid.SampledFrom(append([]string{"requests", "requests", "requests", "requests", "requests", "requests", "edits"}, scaleCfgDims...)).Draw(t, "scale-dim")
+		scaleCfg(t, &c.Cfg, scale)
+		// slots: 0 = before the warm-up requests, 1 = after them, 2.. = after the requests of each round
+		bulkSlot = rapid.IntRange(0, 4).Draw(t, "bulk-slot")
+		if rapid.Bool().Draw(t, "bulk-split") {
+			bulkSlot2 = rapid.IntRange(bulkSlot+1, 5).Draw(t, "bulk-slot-2")
+		}
+	}
 	cur, prev := c.Cfg, c.Cfg
 	idx := 0
-	reqs := func(n int, afterEdit bool) {
+	var reqs func(n int, afterEdit bool)
+	atSlot := func(last bool) {
+		defer func() { slot++ }()
+		if bulkRest != nil && (slot == bulkSlot2 || last) {
+			c.Ops = append(c.Ops, Op{Bulk: bulkRest})
+			bulkRest = nil
+		}
+		if bulkSlot < 0 || !(slot == bulkSlot || (last && slot < bulkSlot)) {
+			return
+		}
+		bulkSlot = -1
+		switch scale {
+		case "requests":
+			b := genBulk(t, cur, true)
+			if bulkSlot2 >= 0 && !last {
+				x, y := b.split()
+				c.Ops = append(c.Ops, Op{Bulk: &x})
+				bulkRest = &y // ordinary requests and edits in the middle of the bulk; the rest is judged against the configuration then in force
+			} else {
+				c.Ops = append(c.Ops, Op{Bulk: &b})
+			}
+		case "edits":
+			eb := EditBulk{N: drawScale(t, "n-edits", capEdits())}
+			tmp := cur
+			for k, nk := 0, rapid.IntRange(2, 3).Draw(t, "edit-cycle"); k < nk; k++ {
+				e := genEdit(t, tmp)
+				eb.Cycle = append(eb.Cycle, e)
+				tmp = applyEdit(tmp, e)
+			}
+			c.Ops = append(c.Ops, Op{EditBulk: &eb})
+			prev, cur = cur, applyEdit(cur, eb.last())
+			reqs(rapid.IntRange(1, 3).Draw(t, "after-edit-bulk"), true) // reach the count, then ordinary requests, then observe
+		}
+	}
+	reqs = func(n int, afterEdit bool) {
 		for i := 0; i < n; i++ {
 			aim, label := cur, "current"
 			if afterEdit && rapid.IntRange(0, 9).Draw(t, "aim-prev") < 4 {
@@ -237,13 +296,26 @@ func genH(t *rapid.T) CaseH {
 			c.Ops = append(c.Ops, Op{Req: &r, Aim: label})
 		}
 	}
+	atSlot(false)
 	reqs(rapid.IntRange(0, 3).Draw(t, "warmup"), false) // 0: the first request comes after an edit
+	atSlot(false)
 	rounds := rapid.IntRange(1, 3).Draw(t, "rounds")
 	for k := 0; k < rounds; k++ {
 		e := genEdit(t, cur)
 		c.Ops = append(c.Ops, Op{Edit: &e})
 		prev, cur = cur, applyEdit(cur, e)
 		reqs(rapid.IntRange(1, 4).Draw(t, "after"), true)
+		atSlot(k == rounds-1)
+	}
+	switch scale {
+	case "request-header-count", "request-header-size":
+		var ps []*Req
+		for i := range c.Ops {
+			if c.Ops[i].Req != nil {
+				ps = append(ps, c.Ops[i].Req)
+			}
+		}
+		scaleReqs(t, ps, scale)
 	}
 	return c
 }
@@ -354,7 +426,60 @@ func runH(c CaseH, report func(*core.Violation)) {
 	cur := c.Cfg
 	edits, served := 0, 0
 	lastEdit := ""
+	serveOne := func(r Req, i int, agentID uint32, aim string, pv *verdict, note0 lazyStr) {
+		w := httptest.NewRecorder()
+		nA, nE := len(ts.Agents.Agents), nEvents()
+		h.GinEngine.ServeHTTP(w, buildRequest(r, agentID))
+		newSessions := ts.Agents.Agents[nA:]
+		admitted := len(newSessions) > 0
+		ev := "[]"
+		if d := nEvents() - nE; d != 0 && !admitted {
+			ev = fmt.Sprintf("[%d new retained events]", d)
+		}
+		post := "|before-any-edit"
+		if edits > 0 {
+			post = "|after-edit"
+		}
+		nEd, nSv, lastE := edits, served, lastEdit
+		note := lazyStr(func() string {
+			s := fmt.Sprintf(" [history: %d edits so far (last: %s), %d requests served before, aimed at the %s configuration]", nEd, lastE, nSv, aim)
+			if note0 != nil {
+				s += note0()
+			}
+			return s
+		})
+		assess(cur, r, i, agentID, w, admitted, newSessions, ev, "hist|", post, pv, note, report)
+		served++
+	}
+	bulkID := uint32(0x0C200000)
 	for i, op := range c.Ops {
+		if op.Bulk != nil {
+			b := *op.Bulk
+			vs := make([]verdict, len(b.Items))
+			for j, it := range b.Items {
+				vs[j] = judge(cur, it.Req) // every request of the bulk is judged; a template's verdict is computed once
+			}
+			k := 0
+			b.each(func(j int, r Req) {
+				bulkID++
+				k++
+				kk := k
+				serveOne(r, 100000+j, bulkID, "current", &vs[j], func() string {
+					return fmt.Sprintf(" [request %d of a bulk of %d (template %d)]", kk, b.total(), j)
+				})
+			})
+			continue
+		}
+		if op.EditBulk != nil {
+			for k := 0; k < op.EditBulk.N; k++ {
+				e := op.EditBulk.Cycle[k%len(op.EditBulk.Cycle)]
+				cur = applyEdit(cur, e)
+				operate(ts, packager.Type.Listener.Edit, operatorInfo(cur))
+				edits++
+				lastEdit = e.What
+			}
+			continue
+		}
 		if op.Edit != nil {
 			e := *op.Edit
 			// the operator's Listener.Edit package (the dialog's whole form) through the real
@@ -369,27 +494,7 @@ func runH(c CaseH, report func(*core.Violation)) {
 		if op.Req == nil {
 			continue
 		}
-		r := *op.Req
-		agentID := uint32(0x0C120100 + i + 1)
-		w := httptest.NewRecorder()
-		nA, nE := len(ts.Agents.Agents), nEvents()
-		h.GinEngine.ServeHTTP(w, buildRequest(r, agentID))
-		newSessions := ts.Agents.Agents[nA:]
-		admitted := len(newSessions) > 0
-		ev := "[]"
-		if d := nEvents() - nE; d != 0 && !admitted {
-			ev = fmt.Sprintf("[%d new retained events]", d)
-		}
-		post := "|before-any-edit"
-		if edits > 0 {
-			post = "|after-edit"
-		}
-		note := fmt.Sprintf(" [history: %d edits so far (last: %s), %d requests served before, aimed at the %s configuration]", edits, lastEdit, served, op.Aim)
-		assess(cur, r, i, agentID, w, admitted, newSessions, ev, "hist|", post, func(v *core.Violation) {
-			v.Msg += note
-			report(v)
-		})
-		served++
+		serveOne(*op.Req, i, uint32(0x0C120100+i+1), op.Aim, nil, nil)
 	}
 }
 
@@ -406,7 +511,41 @@ func classifyH(c CaseH) core.Class {
 	cur := c.Cfg
 	edits, served := 0, 0
 	fp := ""
-	for _, op := range c.Ops {
+	var fates fateCounts
+	cl.Labels = append(cl.Labels, cfgScaleLabels(c.Cfg)...)
+	for i, op := range c.Ops {
+		if op.Bulk != nil {
+			for _, it := range op.Bulk.Items {
+				fates.add(cur, it.Req, it.Times)
+			}
+			switch {
+			case i == 0:
+				cl.Labels = append(cl.Labels, "scale:bulk-before-everything")
+			case i == len(c.Ops)-1:
+				cl.Labels = append(cl.Labels, "scale:bulk-at-the-end")
+			default:
+				cl.Labels = append(cl.Labels, "scale:bulk-between-requests-and-edits")
+			}
+			if edits > 0 {
+				cl.Labels = append(cl.Labels, "scale:bulk-after-an-edit")
+			}
+			served += op.Bulk.total()
+			continue
+		}
+		if op.EditBulk != nil {
+			cur = applyEdit(cur, op.EditBulk.last())
+			edits += op.EditBulk.N
+			if i == len(c.Ops)-1 {
+				cl.Labels = append(cl.Labels, "scale:edits-at-the-end")
+			} else {
+				cl.Labels = append(cl.Labels, "scale:edits-then-requests")
+			}
+			continue
+		}
+		if op.Req != nil {
+			fates.add(cur, *op.Req, 1)
+			cl.Labels = append(cl.Labels, reqScaleLabels(*op.Req)...)
+		}
 		if op.Edit != nil {
 			cur = applyEdit(cur, *op.Edit)
 			edits++
@@ -462,10 +601,24 @@ func classifyH(c CaseH) core.Class {
 		}
 		served++
 	}
+	cl.Labels = append(cl.Labels, fates.labels()...)
+	cl.Labels = append(cl.Labels, scaleLabel("edits-per-listener", edits)...)
+	nBulks := 0
+	for _, op := range c.Ops {
+		if op.Bulk != nil {
+			nBulks++
+		}
+	}
+	if nBulks > 1 {
+		cl.Labels = append(cl.Labels, "scale:bulk-split-around-requests-and-edits")
+	}
 	last := ""
 	for _, op := range c.Ops {
 		if op.Edit != nil {
 			last = op.Edit.What
+		}
+		if op.EditBulk != nil {
+			last = op.EditBulk.last().What
 		}
 	}
 	xffAfterEdit := false
@@ -487,13 +640,14 @@ func classifyH(c CaseH) core.Class {
 		cl.Labels = append(cl.Labels, fmt.Sprintf("post-with-xff-after-edit|trust-xff:%v", c.Cfg.BehindRedir))
 	}
 	cl.Fingerprint = fmt.Sprintf("%s|trust=%v|last=%s|%s", c.Start, c.Cfg.BehindRedir, strings.Split(last, "+")[0], fp)
+	noteScale("h", cl.Labels)
 	return cl
 }
 
 func TestC12h(t *testing.T) {
 	core.Run(t, core.Spec[CaseH]{
 		Property: "C12", Sub: "h",
-		Rule: "histories on one running listener of a real Teamserver whose profile has Demon.TrustXForwardedFor true or false (half each). The listener is started either by the operator's Listener.Add package through the real DispatchEvent (2/3) or by ts.ListenerStart with the configuration teamserver.go builds for a profile listener, response headers included (1/3). Then 0-3 requests and 1-3 rounds of {an operator Listener.Edit package (the dialog's whole form, Info keys and ', '-joined lists exactly as the client sends them) through the real DispatchEvent -> ts.ListenerEdit, 1-4 requests}. Edits change one or two of: URIs (empty the list, fill an empty one, change one element, add, remove one, replace all), user agent (set/unset/change), request headers (empty, fill, change a value, add, remove one; half of the filled / added lists use (a)'s header-NAME classes: entries named User-Agent, Host, Content-Length, Content-Type, Cookie, repeated names, case variants, trailing blank - so a User-Agent entry meets a UserAgent setting that an edit sets, changes or removes). Requests are generated as in (a) - including its Unicode classes (fold partner / confusable of a configured header value, user agent or URI; configured values with s, k, sigma, micro, composed letters) - around the configuration in force or (40% after an edit) around the previous one, carry X-Forwarded-For always when the profile trusts the redirector and in a third of the cases otherwise, and every one is judged by (a)'s reference judge against the configuration in force at that moment, the redirector flag being the profile's throughout: admitted <=> new entry in ts.Agents with 200 + registration reply + response headers + ExternalIP (X-Forwarded-For iff the profile trusts the redirector, else the peer); otherwise 404, no new agent, no new retained event. Non-trivial: a request served, then an edit, then a request that satisfies the new configuration or was aimed at the old one; distinct = (start mode, profile flag, kind of the last edit, aim and verdict of the first such request)",
+		Rule: "histories on one running listener of a real Teamserver whose profile has Demon.TrustXForwardedFor true or false (half each). The listener is started either by the operator's Listener.Add package through the real DispatchEvent (2/3) or by ts.ListenerStart with the configuration teamserver.go builds for a profile listener, response headers included (1/3). Then 0-3 requests and 1-3 rounds of {an operator Listener.Edit package (the dialog's whole form, Info keys and ', '-joined lists exactly as the client sends them) through the real DispatchEvent -> ts.ListenerEdit, 1-4 requests}. Edits change one or two of: URIs (empty the list, fill an empty one, change one element, add, remove one, replace all), user agent (set/unset/change), request headers (empty, fill, change a value, add, remove one; half of the filled / added lists use (a)'s header-NAME classes: entries named User-Agent, Host, Content-Length, Content-Type, Cookie, repeated names, case variants, trailing blank - so a User-Agent entry meets a UserAgent setting that an edit sets, changes or removes). Requests are generated as in (a) - including its Unicode classes (fold partner / confusable of a configured header value, user agent or URI; configured values with s, k, sigma, micro, composed letters) - around the configuration in force or (40% after an edit) around the previous one, carry X-Forwarded-For always when the profile trusts the redirector and in a third of the cases otherwise, and every one is judged by (a)'s reference judge against the configuration in force at that moment, the redirector flag being the profile's throughout: admitted <=> new entry in ts.Agents with 200 + registration reply + response headers + ExternalIP (X-Forwarded-For iff the profile trusts the redirector, else the peer); otherwise 404, no new agent, no new retained event. SCALE (about one history in 20; one count per history from the threshold-adjacent pool 63..8193 of (a)): requests served by the one listener instance - a bulk as in (a) (non-matching POSTs, matching requests, GETs and mixes; totals up to 8193, templates that may be admitted cut at 513 per bulk in the quick tier / 1025 thorough: an admitted request costs ~2 ms on the real Teamserver) placed before the warm-up, after it or after any round, optionally split in two parts with requests and edits in between (each part judged against the configuration then in force), every request judged; operator edits of the one listener (a cycle of 2-3 generated edit forms sent 63..129 times, quick tier; up to 513 thorough - an edit costs ~10 ms), followed by ordinary requests; configured headers / URIs / hosts up to 1025 entries through the operator's Add / Edit packages, configured header value size, headers per request and request header size up to 8193. Non-trivial: a request served, then an edit, then a request that satisfies the new configuration or was aimed at the old one; distinct = (start mode, profile flag, kind of the last edit, aim and verdict of the first such request)",
 		Gen:  genH, Check: checkH, Classify: classifyH,
 		Assumptions: []string{
 			"operator packages are dispatched without a connected operator socket (replies to 'the user' and broadcasts are no-ops), as CreatePackage + EventAppend + DispatchEvent, which is what handleRequest does after authentication",
